@@ -37,7 +37,7 @@ pub fn prop() -> Prop {
         stub: &["transport", "store", "glue", "random source", "Byzantine sender"],
         independent: &[],
         ref_sample: |_| 0,
-        required_probes: &["kind_proof_response", "kind_proof_commitment", "kind_proof_other_identifier", "kind_proof_other_commitment", "kind_coeff_0", "kind_coeff_last", "kind_len_t_minus_1", "kind_len_t_plus_1", "kind_len_0", "kind_len_t_plus_65536", "kind_share_plus_1", "kind_share_zero", "kind_share_other_recipient", "kind_r1_under_own_id", "kind_r1_under_unknown_id", "kind_r1_missing", "kind_r1_surplus", "kind_r2_under_own_id", "kind_r2_missing", "receiver_last_sender_checked"],
+        required_probes: &["route_suite_crate_entry_points", "route_frost_core_generics", "kind_proof_response", "kind_proof_commitment", "kind_proof_other_identifier", "kind_proof_other_commitment", "kind_coeff_0", "kind_coeff_last", "kind_len_t_minus_1", "kind_len_t_plus_1", "kind_len_0", "kind_len_t_plus_65536", "kind_share_plus_1", "kind_share_zero", "kind_share_other_recipient", "kind_r1_under_own_id", "kind_r1_under_unknown_id", "kind_r1_missing", "kind_r1_surplus", "kind_r2_under_own_id", "kind_r2_missing", "receiver_last_sender_checked"],
         prepare: None,
     }
 }
@@ -115,6 +115,7 @@ enum Step {
 
 fn exec_c<C: Suite>(scen: &Scenario) -> Exec {
     let mut rep = new_report(scen);
+    set_route(scen.run, &mut rep);
     let sim = match run_honest::<C>(scen, &mut rep) {
         Ok(s) => s,
         Err(v) if v.oracle == "harness" => return Exec::Harness(v.detail),
@@ -138,7 +139,7 @@ fn exec_c<C: Suite>(scen: &Scenario) -> Exec {
     let mut snap = Snap::<C> { r1_secret: r1s.into_iter().map(|x| x.unwrap()).collect(), r1_pkg: r1p.into_iter().map(|x| x.unwrap()).collect(), r2_secret: Vec::new(), r2_out: Vec::new() };
     let honest_r1 = |i: usize| -> R1Map<C> { (0..n).filter(|j| *j != i).map(|j| (ids[j], snap.r1_pkg[j].clone())).collect() };
     for i in 0..n {
-        match dkg::part2::<C>(snap.r1_secret[i].clone(), &honest_r1(i)) {
+        match dkg_part2::<C>(snap.r1_secret[i].clone(), &honest_r1(i)) {
             Ok((s, out)) => {
                 snap.r2_secret.push(s);
                 snap.r2_out.push(out);
@@ -150,7 +151,7 @@ fn exec_c<C: Suite>(scen: &Scenario) -> Exec {
     let honest_r2 = |i: usize| -> R2Map<C> { (0..n).filter(|j| *j != i).map(|j| (ids[j], snap.r2_out[j][&ids[i]].clone())).collect() };
     // control: no fault => success, and equal to what the simulated run produced
     for i in 0..n {
-        match dkg::part3::<C>(&snap.r2_secret[i], &honest_r1(i), &honest_r2(i)) {
+        match dkg_part3::<C>(&snap.r2_secret[i], &honest_r1(i), &honest_r2(i)) {
             Ok((kp, _pk)) => {
                 let sim_kp = sim.history.iter().find_map(|r| match r {
                     Record::DkgDone { node, kp, .. } if *node == i => Some(kp.clone()),
@@ -363,7 +364,7 @@ fn exec_c<C: Suite>(scen: &Scenario) -> Exec {
                 let narrow: Value = json!([i, j, kind]);
                 let who = format!("receiver {i}, sender {j}, fault {kind}");
                 let err: Option<frost::Error<C>> = match step {
-                    Step::Part2 => match dkg::part2::<C>(snap.r1_secret[i].clone(), &m1) {
+                    Step::Part2 => match dkg_part2::<C>(snap.r1_secret[i].clone(), &m1) {
                         Ok(_) => None,
                         Err(e) => Some(e),
                     },
@@ -371,10 +372,10 @@ fn exec_c<C: Suite>(scen: &Scenario) -> Exec {
                         // the documented contract: the same round-1 map goes to part2 and part3.
                         // part2 does not consume the faulty field in these cases and must not be the one to fail
                         // (it may, legitimately, for coefficient faults only if it consumed them - it does not).
-                        let second: Result<(round2::SecretPackage<C>, R2Map<C>), frost::Error<C>> = dkg::part2::<C>(snap.r1_secret[i].clone(), &m1);
+                        let second: Result<(round2::SecretPackage<C>, R2Map<C>), frost::Error<C>> = dkg_part2::<C>(snap.r1_secret[i].clone(), &m1);
                         match second {
                             Err(e) => Some(e), // failing earlier is still a failure "instead of producing key material"
-                            Ok((s2, _)) => match dkg::part3::<C>(&s2, &m1, &m2) {
+                            Ok((s2, _)) => match dkg_part3::<C>(&s2, &m1, &m2) {
                                 Ok((kp, pk)) => {
                                     let _: (KeyPackage<C>, PublicKeyPackage<C>) = (kp, pk);
                                     None
@@ -390,6 +391,11 @@ fn exec_c<C: Suite>(scen: &Scenario) -> Exec {
                     }
                     Some(e) => {
                         let c = e.culprits();
+                        // the receiver is never the offender: something filed under its OWN identifier is refused without the error
+                        // pointing at the receiver itself
+                        if c.contains(&ids[i]) {
+                            return Exec::Violation(Violation::new("C08", "C08.wrong_participant_blamed", format!("{who}: error {e:?} names the RECEIVER itself")).narrowed(narrow), rep);
+                        }
                         if !c.iter().all(|x| *x == slot) {
                             return Exec::Violation(Violation::new("C08", "C08.wrong_participant_blamed", format!("{who}: error {e:?} names someone other than the offending slot")).narrowed(narrow), rep);
                         }
